@@ -61,8 +61,8 @@ type env struct {
 	objID map[*goja.Object]int
 	// objAddr is the address of OBJ[0] (goja hashes objects by address; an integer key with that value collides with it)
 	objAddr uintptr
-	symID map[*goja.Symbol]int
-	st    *core.Stats
+	symID   map[*goja.Symbol]int
+	st      *core.Stats
 }
 
 type violation struct {
